@@ -21,6 +21,7 @@ Inductive ev :=
 | ELose
 | EPrompt                                    (* getpass / input *)
 | EMade                                      (* vncConnectionMade entered *)
+| EMode (m : immode)                         (* setImageMode settled on this PIL raw mode *)
 | EConnected                                 (* factory.clientConnectionMade *)
 | EErrback                                   (* factory.clientConnectionFailed(AuthenticationError) *)
 | EAuthFailed (reason : bytes)
@@ -37,7 +38,8 @@ Inductive ev :=
 | EColorMap (first : Z) (colors : list (Z * Z * Z)).
 
 Record cfg := mk_cfg {
-  c_variant : Z;               (* 0 rfb.RFBClient, 1 client.VNCDoToolClient, 2 command.VNCDoCLIClient *)
+  c_variant : Z;               (* 0 rfb.RFBClient, 1 client.VNCDoToolClient, 2 command.VNCDoCLIClient,
+                                  3 client.VMWareClient *)
   c_shared : Z;                (* factory.shared *)
   c_username : option (list Z);
   c_prompt_user : list Z;      (* what input() returns *)
@@ -155,7 +157,7 @@ Definition connection_made (s : st) : st * option (list ev) :=
           end
       end in
     match es1, opt_write (setEncodings (encodings_of (cf s))) with
-    | Some a, Some b => (s1, Some ([EMade] ++ a ++ b ++ [EConnected]))
+    | Some a, Some b => (s1, Some ([EMade] ++ a ++ [EMode (imode s1)] ++ b ++ [EConnected]))
     | _, _ => (s1, None)
     end.
 
@@ -190,7 +192,7 @@ Definition request_password (s : st) : res :=
   | Some pw => send s pw []
   | None =>
       if c_variant (cf s) =? 0 then ok s PAuthResult [ELose]
-      else if c_variant (cf s) =? 1 then ok s PAuthResult [ELose; EErrback]
+      else if (c_variant (cf s) =? 1) || (c_variant (cf s) =? 3) then ok s PAuthResult [ELose; EErrback]
       else let pw := c_prompt_pw (cf s) in send (s <| password := Some pw |>) pw [EPrompt]
   end.
 
@@ -745,38 +747,67 @@ Definition handle_initial (s : st) (buf : bytes) : init_res :=
   else if starts_with norm HEADER then IWait
   else ILose.
 
-(** one dataReceived call *)
-Definition feed_client (fuel : nat) (c : client) (d : bytes) : option (list ev * client) :=
+Definition vm_match (d : bytes) : bool :=
+  (len d =? 20) &&
+  (nth 0 d 0 =? nth 0 VMWARE_SINGLE_PIXEL_UPDATE 0) &&
+  forallb (fun i => nth i d 0 =? nth i VMWARE_SINGLE_PIXEL_UPDATE 0) (seq 2 14).
+
+(** one dataReceived call; the [nat] counts handler invocations *)
+Definition feed_plain (fuel : nat) (c : client) (d : bytes) : option (list ev * client * nat) :=
   match c with
   | CInitial s buf =>
       let buf' := buf ++ d in
       match handle_initial s buf' with
-      | IWait => Some ([], CInitial s buf')
-      | ILose => Some ([ELose], CInitial s buf')
-      | IRaise => Some ([], CRun Crashed)
+      | IWait => Some ([], CInitial s buf', O)
+      | ILose => Some ([ELose], CInitial s buf', O)
+      | IRaise => Some ([], CRun Crashed, O)
       | IGo s' p rest es =>
           match drain_fuel st pend ev need step fuel s' p rest with
-          | Some (es2, o, _) => Some (es ++ es2, CRun o)
+          | Some (es2, o, n) => Some (es ++ es2, CRun o, n)
           | None => None
           end
       end
   | CRun (Idle s p buf) =>
       match drain_fuel st pend ev need step fuel s p (buf ++ d) with
-      | Some (es, o, _) => Some (es, CRun o)
+      | Some (es, o, n) => Some (es, CRun o, n)
       | None => None
       end
-  | CRun Crashed => Some ([], c)
+  | CRun Crashed => Some ([], c, O)
   end.
 
-Fixpoint run_client (fuel : nat) (c : client) (chunks : list bytes) : option (list ev * client) :=
+(* client.VMWareClient.dataReceived *)
+Definition feed_client (fuel : nat) (c : client) (d : bytes) : option (list ev * client * nat) :=
+  let variant := match c with
+                 | CInitial s _ => c_variant (cf s)
+                 | CRun (Idle s _ _) => c_variant (cf s)
+                 | CRun Crashed => 0
+                 end in
+  if (variant =? 3) && vm_match d then
+    match c with
+    | CRun (Idle s p buf) =>
+        if width s <? 0 then Some ([], CRun Crashed, O)          (* AttributeError: no width yet *)
+        else match framebufferUpdateRequest 0 0 0 (width s) (height s) with
+             | Some b =>
+                 match feed_plain fuel c [] with
+                 | Some (es, c', n) => Some (EWrite b :: es, c', n)
+                 | None => None
+                 end
+             | None => Some ([], CRun Crashed, O)
+             end
+    | CInitial _ _ => Some ([], CRun Crashed, O)
+    | CRun Crashed => Some ([], c, O)
+    end
+  else feed_plain fuel c d.
+
+Fixpoint run_client (fuel : nat) (c : client) (chunks : list bytes) : option (list ev * client * nat) :=
   match chunks with
-  | [] => Some ([], c)
+  | [] => Some ([], c, O)
   | d :: ds =>
       match feed_client fuel c d with
       | None => None
-      | Some (es, c1) =>
+      | Some (es, c1, n1) =>
           match run_client fuel c1 ds with
-          | Some (es2, c2) => Some (es ++ es2, c2)
+          | Some (es2, c2, n2) => Some (es ++ es2, c2, (n1 + n2)%nat)
           | None => None
           end
       end
